@@ -12,9 +12,6 @@ from sa import props  # noqa: E402
 
 ALL = ['C%02d' % i for i in range(1, 21)]
 NOT_APPLICABLE = {
-    'C19': 'file round-trip fidelity through astropy.io/h5py/numpy and the factories\' type inference: every clause '
-           'quantifies over array contents and external-library behaviour; no table, pairing or ownership structure '
-           'in glue\'s ~150 lines of exporter code carries it (static analysis cannot decide values)',
     'C20': 'every clause is an integer/array arithmetic identity (combine_slices, find_chunk_shape, iterate_chunks, '
            'unbroadcast, categories[codes] == values); deciding them needs concrete or symbolic evaluation of the '
            'arithmetic, which is a different technique family',
